@@ -37,6 +37,34 @@ Proof.
   intros lv c y t f. unfold targets. simpl. unfold isz. destruct (oval lv c y =? 0)%Z; reflexivity.
 Qed.
 
+(* Jump tables.  db / da = the block labels stored in the data segment before / after the pass (renamed by
+   `_replace_all_labels`).  If data_check accepts as well, the bisimulation relates, for EVERY block that ends in `djmp`
+   and every table index i whose entry is one of the djmp's listed targets, "control enters da[i] from that block" in
+   `after` with "control enters db[i] from that block" in `before`: choosing table entry i leads to bisimilar
+   continuations (the refinement of the model's "djmp goes to any listed label" by the table index).
+   `stands c after a bn`: the after-block a holds the code of the before-block bn. *)
+Definition stands (c : cert) (after : func) (a bn : N) : Prop :=
+  match c with CChain ch => nth_block after a <> [] /\ bn = last (chain_of ch a) a | _ => a = bn end.
+Theorem cfg_check_data_sound : forall before after db da c,
+  cfg_check before after c = true -> data_check before after db da c = true ->
+  forall M osem lv, exists R, bisimulation M osem lv after before R /\
+    forall a bn Tb i tb ta env m,
+      stands c after a bn -> (N.to_nat bn < List.length before)%nat -> djmp_of (nth_block before bn) = Some Tb ->
+      nth_error db i = Some tb -> nth_error da i = Some ta -> In tb (labels_of (i_args Tb)) ->
+      R (Run ta 0 (Some a) env m) (Run tb 0 (Some bn) env m).
+Proof.
+  intros f g db da [ch|F|al|F] H Hd M osem lv; simpl in *.
+  - destruct (chain_bisimulation_data M osem lv f g ch H db da Hd) as [R [HR HT]]. exists R. split; auto.
+    intros a bn Tb i tb ta env m [Hne E] _ Hdj H1 H2 Hin. subst bn. eapply HT; eauto.
+  - destruct (flip_bisimulation_data M osem lv f g F H db da Hd) as [R [HR HT]]. exists R. split; auto.
+    intros a bn Tb i tb ta env m E _ Hdj H1 H2 Hin. subst bn. eapply HT; eauto.
+  - destruct (tail_bisimulation_data M osem lv f g al H db da Hd) as [R [HR HT]]. exists R. split; auto.
+    intros a bn Tb i tb ta env m E _ Hdj H1 H2 Hin. subst bn. eapply HT; eauto.
+  - destruct (split_bisimulation_data M osem lv f g F H db da Hd) as [R [HR HT]]. exists R. split; auto.
+    intros a bn Tb i tb ta env m E Hr Hdj H1 H2 Hin. subst bn. eapply HT; eauto.
+Qed.
+Print Assumptions cfg_check_data_sound.
+
 (* the sequential phis of CfgSem.v are the parallel phis of RangeFix.v / the back end on every function the validator is
    applied to (phis_indep is evaluated together with cfg_check on every instance) *)
 Theorem phis_indep_parallel : forall M osem lv (f : func) b q c m mv,
